@@ -270,7 +270,12 @@ def obligations(tier, seed):
             obs.append(dict(o, name="C03.parse"))       # text -> tracks: first index of a track = its first INDEX line, in file order
     for n in (1, 2, 3):
         obs.append(_ob(f"C03.image/n={n}", "h_image", [f"n == {n}"], T, "index positions, INDEX 00 pregap line, TITLE presence, stray tail bytes",
-                       "real cue text + bin file through determine_image_type and export_samples_to_wav; concrete per path", stubs=["temporary files", "in-memory export"]))
+                       "real cue text + bin file through determine_image_type and export_samples_to_wav; concrete per path", stubs=["temporary files", "export to a temporary directory, read back"]))
     obs.append(_ob("C03.dispatch", "h_dispatch", [], T, "number of tracks and mode of each (AUDIO/audio/MODE1/MODE2)", "<= 3 tracks",
                    stubs=["open/determine_image_type/from_bin_cue recorders"]))
+    # every track is exported as its own file whatever its TITLE says (L/R-looking titles, duplicates, none): shared with C06.image/cdda
+    from vf.props import c06 as _c06
+    for o in _c06.image_obligations("C03.titles", "vf.props.c06", tier, dup=True, cdda=True):
+        if "/cdda/" in o["name"]:
+            obs.append(dict(o, extra_pre=list(o["extra_pre"]) + ["sc == 0"]))
     return obs
